@@ -3,6 +3,9 @@ import Firefly.Proof.AmlNameRt
 import Firefly.Proof.AmlNsSpec
 import Firefly.Proof.AmlObjRt
 import Firefly.Proof.AmlDeclRt
+import Firefly.Proof.AmlFlatNs
+import Firefly.Proof.AmlNestNs
+import Firefly.Proof.AmlMulti
 import Firefly.Model.AmlProg
 import Firefly.Model.AmlNs
 import Firefly.Gen.C11
@@ -15,8 +18,13 @@ and arguments in order. Constants, strings, buffers and field offsets/widths car
 values, and every method invocation … has exactly the declared number of arguments attached."
 
 The whole-parser statement `parse_encode : parseAML (encode p) = .ok t ∧ nsOf t = namespaceOf p` is
-**not** proved (DESIGN §5: a multi-week proof over four interacting passes) — and it is *false* of the
-current code for the six program shapes recorded as known findings.  It is decided per generated
+**not** proved for the whole grammar subset (DESIGN §5: a multi-week proof over four interacting passes) — and it is
+*false* of the current code for the six program shapes recorded as known findings.  It IS proved, end to end and for all
+inputs, for two fragments: programs that are a list of `Name(NAME, integer)` declarations (`flat_programs_agree`, with the
+stage theorem `flat_parse` about the pool `ParseAML` returns), and — containing the first — programs made of
+`Device(NAME){…}` nested to ANY depth around `Name(NAME, integer)` declarations (`nested_programs_agree`, stage theorem
+`nested_parse`): there every named object is found at the absolute path its enclosing devices give it; and for any NUMBER
+of such tables loaded one after the other (`multi_table_programs_agree`).  It is decided per generated
 program by the executable specification `AmlProg.namespaceOf` and the differential oracle of
 `./check C11` (`nsOf (tree of the real parser) = namespaceOf program`, plus model = implementation on
 the whole object pool).  What is proved here, for all inputs: the lexical round trips of integer
@@ -251,7 +259,7 @@ theorem name_decl_first_pass (d : Bytes) (hd : d.size + 1024 ≤ 4294967296) (f 
       (C13.slot s'.tree c).value = .bytes (base + 1) ((encNameP n).length - (if n.segs = [] then 1 else 0)) ∧
       s'.r = { offset := base + 1 + (encNameP n).length, pkgEnd := pe } ∧ s'.scopeStack = s.scopeStack ∧
       (∀ y, C13.live s.tree y = true → C13.live s'.tree y = true ∧ C13.P s'.tree y = C13.P s.tree y) := by
-  obtain ⟨a, s', e, ha, x, c, h', a1, a2, a3, a4, a5, a6, a7, a8, a9, a10, a11, a12, a13, a14, a15⟩ :=
+  obtain ⟨a, s', e, ha, x, c, h', a1, a2, a3, a4, a5, a6, a7, a8, a9, a10, a11, a12, a13, a14, a15, _⟩ :=
     AmlParser.F.name_decl_first_pass hd f h hsk hne hsz n.root n.carets (n.segs.map segBytes) base pe hr hpe hok hop henc hfit
   subst ha
   refine ⟨s', x, c, e, h', a1, a2, a3, a4, a5, a6, a7, a8, a9, a10, a11, ?_, a13, a14, a15⟩
@@ -260,6 +268,159 @@ theorem name_decl_first_pass (d : Bytes) (hd : d.size + 1024 ≤ 4294967296) (f 
   by_cases hq : n.segs = []
   · rw [if_pos hq, if_pos (e1.mpr hq)]; rfl
   · rw [if_neg hq, if_neg (fun hh => hq (e1.mp hh))]; rfl
+
+/-! ## the property itself, for a fragment: tables of `Name(NAME, integer)` declarations
+
+`AmlParser.F.FlatItem` = (name segment, integer width, integer value); `FlatItem.obj` is the declaration
+`Name(str, Integer)` of the grammar (`AmlProg.Obj.name { segs := [str] } (.int w v)`); `FlatItem.OK`: the segment is four
+characters below 256 starting with a capital letter or `_`, the width is one the encoder writes (0 = ZeroOp/OneOp/OnesOp,
+1, 2, 4, 8).  The proof follows `ParseAML` through all of its passes on these tables (Proof/AmlDeclRt, AmlConstDecl,
+AmlFlatFirst: first pass; AmlFlatConnect: `connectNamedObjArgs`; AmlFlatQuiet: `mergeScopeDirectives`,
+`relocateNamedObjects`, `parseDeferredBlocks`, `resolveMethodCalls`, `connectNonNamedObjArgs`; AmlFlatParse: composition;
+AmlFlatNs: `nsOf` of the result and `namespaceOf` of the program). -/
+
+/-- **`ParseAML` on a table of `Name(NAME, integer)` declarations** (`Flat.parse`).  For every such table — any number of
+declarations, every integer width and value — loaded from any parser state whose pool is well-formed and has a parentless
+scope-block root with childless scope-block children (the default scopes; `AmlParser.F.Base`): with the fuel the replay
+uses, `ParseAML` SUCCEEDS (no error, no panic, no exhausted fuel), and the pool it returns (`AmlParser.F.Flat … [] its`) is
+the old pool, untouched, plus for each declaration in order a `Name` object appended to the root's children that carries
+the declared name and has exactly two arguments — its name path and an integer object with the declared value. -/
+theorem flat_parse (l : List AmlParser.F.FlatItem) (hok : ∀ a ∈ l, a.OK) (d : Bytes)
+    (hd : d = mkTable (encode (l.map AmlParser.F.FlatItem.obj)).toArray) (hlen : d.size ≤ 1000000000)
+    (s : AmlParser.PState) (ht : AmlParser.G.TreeG s.tree) (b : AmlParser.F.Base s.tree)
+    (hsz : s.tree.pool.size + 3 * l.length < C13.INV) (fuel : Nat)
+    (hfuel : 2 * l.length + (AmlParser.F.K s.tree 0).length + 9 ≤ fuel) (handle : Nat) :
+    ∃ s' its, AmlParser.parseAML d fuel handle s = .ok (true, s') ∧
+      AmlParser.F.Flat d s.tree s'.tree handle [] its ∧ its.map (·.q) = l.map AmlParser.F.FlatItem.decl := by
+  have henc := AmlParser.F.encode_flat l
+  have hsize : d.size = Gen.C12.headerLen + (encode (l.map AmlParser.F.FlatItem.obj)).length := by
+    rw [hd, AmlParser.F.mkTable_size]; simp
+  have hbytes := AmlParser.F.mkTable_bytes (encode (l.map AmlParser.F.FlatItem.obj)).toArray
+  rw [← hd] at hbytes
+  simp only [List.toList_toArray] at hbytes
+  rw [henc] at hbytes hsize
+  have := AmlParser.F.parseAML_flat (d := d) (by omega) (by omega) (l.map AmlParser.F.FlatItem.decl)
+    (fun q hq => by
+      obtain ⟨a, ha, rfl⟩ := List.mem_map.1 hq
+      exact (AmlParser.F.decl_ok (hok a ha)).1)
+    (fun q hq => by
+      obtain ⟨a, ha, rfl⟩ := List.mem_map.1 hq
+      exact (AmlParser.F.decl_ok (hok a ha)).2)
+    hbytes hsize.symm s ht b (by rw [List.length_map]; exact hsz) fuel (by rw [List.length_map]; exact hfuel) handle
+  exact this
+
+/-- **C11 holds for every program that is a list of `Name(NAME, integer)` declarations** (`Flat.agrees`; `C11.parse_ok` ∧
+`C11.found_at_path` ∧ `C11.value` on this fragment).  For every such program — any number of declarations, every integer
+width and value, well-formed single-segment names that are pairwise distinct and differ from the default scopes — loaded as
+one table into the default namespace: the program is well-scoped (`namespaceOf` reports no error), the parser model accepts
+the encoded table (`ParseAML` returns `nil`; no panic, no exhausted fuel), and the namespace read off the resulting object
+tree (`nsOf`: absolute path ↦ kind and value of every named object; call sites) is the namespace ACPI's scoping rules assign
+to the program (`namespaceOf`).  `agrees` is the check the oracle evaluates for every generated program; here it is
+proved for all programs of the fragment.  (About the parser MODEL; the model-vs-implementation correspondence of
+`./check C11` ties it to the Go parser on the replayed inputs.) -/
+theorem flat_programs_agree (l : List AmlParser.F.FlatItem) (hok : ∀ a ∈ l, a.OK)
+    (hnd : (defaultNs.objs.map (·.1) ++ l.map (fun a => [a.str])).Nodup)
+    (hlen : (encode (l.map AmlParser.F.FlatItem.obj)).length ≤ 1000000000) :
+    agrees [l.map AmlParser.F.FlatItem.obj] = true :=
+  AmlParser.F.agrees_flat l hok hnd hlen
+
+/-- non-vacuity: a program of the fragment (every encoding width), its hypotheses, and the instance of the theorem; the
+same program is the deterministic case `b-flat-names` of `harness/aml/c11_test.go`, so every run of `./check C11` also
+compares the model with the real parser and the real tree's namespace with `namespaceOf` on it -/
+example : agrees [[.name { segs := ["N000"] } (.int 1 7), .name { segs := ["_X01"] } (.int 0 0), .name { segs := ["ABCD"] } (.int 8 0x1122334455667788),
+    .name { segs := ["N003"] } (.int 2 0x1234), .name { segs := ["N004"] } (.int 0 5), .name { segs := ["N005"] } (.int 4 9)]] = true :=
+  flat_programs_agree [⟨"N000", 1, 7⟩, ⟨"_X01", 0, 0⟩, ⟨"ABCD", 8, 0x1122334455667788⟩, ⟨"N003", 2, 0x1234⟩, ⟨"N004", 0, 5⟩, ⟨"N005", 4, 9⟩]
+    (by
+      intro a ha
+      simp only [List.mem_cons, List.mem_nil_iff, or_false] at ha
+      rcases ha with rfl | rfl | rfl | rfl | rfl | rfl <;>
+        exact ⟨⟨by decide, by decide, by decide⟩, by unfold AmlParser.F.IntW; decide⟩)
+    (by decide) (by decide)
+
+/-! ## the property itself, for the nested fragment: `Device(NAME){…}` to any depth around `Name(NAME, integer)`
+
+`AmlParser.F.NObj` = `name str w v` | `dev pw str body` (`pw`: the PkgLength width the encoder is forced to use);
+`AmlParser.F.objsOf` maps a list of them to the grammar's `AmlProg.Obj`s (`Name(str, Integer)`, `Device(str){body}`);
+`oksOf`: every segment well-formed, every integer width one the encoder writes, every `pw` in 1..4 and wide enough for the
+package it measures; `entsOL [] l`: the namespace entries ACPI's scoping rules give the declarations (absolute path ↦
+`device` / `name:i<value>`).  Proof/AmlNestFirst (first pass through nested packages: `dev_open`, `ol_nest`),
+AmlNestConnect (`connectNamedObjArgs`, by induction on the number of declarations), AmlNestQuiet (the five quiet walks on
+trees of any depth, fuel linear in the number of declarations), AmlNestParse, AmlNestNs. -/
+
+/-- **`ParseAML` on a nested program** (`Nest.parse`).  For every program of the fragment, loaded from any parser state
+whose pool is well-formed and has a parentless scope-block root with childless scope-block children (`AmlParser.F.Base`):
+with enough fuel (linear in the number of declarations; `fuelFor` is enough), `ParseAML` SUCCEEDS, and the pool it returns
+is the old pool, untouched, plus the objects of the program laid out as `ns` says (`AmlParser.F.NestT`): every `Name`
+object carries its name and has its name path and its integer as arguments; every device carries its name and has its name
+path and a scope block as arguments; that scope block holds the device's own declarations, in order; the top-level
+declarations are appended to the root's children. -/
+theorem nested_parse (l : List AmlParser.F.NObj) (hok : AmlParser.F.oksOf l) (d : Bytes)
+    (hd : d = mkTable (encode (AmlParser.F.objsOf l)).toArray) (hlen : d.size ≤ 1000000000)
+    (s : AmlParser.PState) (ht : AmlParser.G.TreeG s.tree) (b : AmlParser.F.Base s.tree)
+    (hsz : s.tree.pool.size + 3 * AmlParser.F.sizePs (AmlParser.F.psOf l) < C13.INV) (fuel : Nat)
+    (hfuel : 8 * AmlParser.F.sizePs (AmlParser.F.psOf l) + (AmlParser.F.K s.tree 0).length +
+      AmlParser.F.closesPs (AmlParser.F.psOf l) + 13 ≤ fuel) (handle : Nat) :
+    ∃ s' ns, AmlParser.F.progs ns = AmlParser.F.psOf l ∧ AmlParser.parseAML d fuel handle s = .ok (true, s') ∧
+      AmlParser.F.NestT d s.tree s'.tree handle ns := by
+  have henc : encode (AmlParser.F.objsOf l) = AmlParser.F.encPs (AmlParser.F.psOf l) := by
+    unfold encode; exact AmlParser.F.enc_nobjs l
+  have hsize : d.size = Gen.C12.headerLen + (encode (AmlParser.F.objsOf l)).length := by
+    rw [hd, AmlParser.F.mkTable_size]; simp
+  have hbytes := AmlParser.F.mkTable_bytes (encode (AmlParser.F.objsOf l)).toArray
+  rw [← hd] at hbytes
+  simp only [List.toList_toArray] at hbytes
+  rw [henc] at hbytes hsize
+  exact AmlParser.F.parseAML_nest (d := d) (by omega) (by omega) (AmlParser.F.psOf l) (AmlParser.F.ok_nobjs l hok)
+    hbytes hsize.symm s ht b hsz fuel hfuel handle
+
+/-- **C11 holds for every program made of nested devices and integer names** (`Nest.agrees`; `C11.parse_ok` ∧
+`C11.found_at_path` ∧ `C11.value` on this fragment).  For every program built from `Device(NAME){…}` — nested to any depth,
+with every PkgLength width — and `Name(NAME, integer)` — every integer width and value —, with well-formed single-segment
+names whose absolute paths are pairwise distinct and differ from the default scopes, loaded as one table into the default
+namespace: the program is well-scoped, the parser model accepts the encoded table (`ParseAML` returns `nil`: no error, no
+panic, no exhausted fuel), and the namespace read off the resulting object tree — each named object at the ABSOLUTE PATH
+its enclosing devices give it, with its kind (`device` / `name`) and the integer value — is exactly the namespace ACPI's
+scoping rules assign to the program.  (About the parser MODEL, like `flat_programs_agree`.) -/
+theorem nested_programs_agree (l : List AmlParser.F.NObj) (hok : AmlParser.F.oksOf l)
+    (hnd : (defaultNs.objs.map (·.1) ++ (AmlParser.F.entsOL [] l).map (·.1)).Nodup)
+    (hlen : (encode (AmlParser.F.objsOf l)).length ≤ 1000000000) :
+    agrees [AmlParser.F.objsOf l] = true :=
+  AmlParser.F.agrees_nest l hok hnd hlen
+
+/-- non-vacuity: a nested program (three levels, PkgLength widths 1, 2 and 3, a name reused in different scopes), its
+hypotheses, and the instance of the theorem; the same program is the deterministic case `b-nested-devices` of
+`harness/aml/c11_test.go` -/
+example : agrees [[.device 1 { segs := ["DEV0"] } [.name { segs := ["N000"] } (.int 1 1),
+      .device 2 { segs := ["DEV1"] } [.name { segs := ["N000"] } (.int 2 0x1234), .device 3 { segs := ["DEV2"] } []],
+      .name { segs := ["N001"] } (.int 0 0)],
+    .name { segs := ["N000"] } (.int 8 0x0123456789abcdef)]] = true :=
+  nested_programs_agree [.dev 1 "DEV0" [.name "N000" 1 1, .dev 2 "DEV1" [.name "N000" 2 0x1234, .dev 3 "DEV2" []], .name "N001" 0 0],
+      .name "N000" 8 0x0123456789abcdef]
+    (AmlParser.F.oks_of_b _ (by decide)) (by decide) (by decide)
+
+/-- **C11 holds for any number of tables of the nested fragment** (`Multi.agrees`).  For every sequence of tables, each built
+from `Device(NAME){…}` (nested to any depth) and `Name(NAME, integer)`, whose declared absolute paths are all distinct and
+differ from the default scopes, loaded in order (handles 1, 2, …) into the default namespace: every table is accepted by the
+parser model — the later tables are parsed into the pool the earlier ones left, whose objects `connectNamedObjArgs` and the
+other passes walk over and leave alone — and the namespace read off the final object tree is the namespace ACPI's scoping
+rules assign to the sequence of tables.  (`Proof/AmlMulti.lean`: `Pool`, `parseAML_pool`, `loadAll_pool`.) -/
+theorem multi_table_programs_agree (ls : List (List AmlParser.F.NObj)) (hok : ∀ l ∈ ls, AmlParser.F.oksOf l)
+    (hnd : (defaultNs.objs.map (·.1) ++ (ls.flatMap (AmlParser.F.entsOL [])).map (·.1)).Nodup)
+    (hlen : AmlParser.F.totalLen ls ≤ 1000000000) :
+    agrees (ls.map AmlParser.F.objsOf) = true :=
+  AmlParser.F.agrees_multi ls hok hnd hlen
+
+/-- non-vacuity: three tables (the deterministic case `b-three-tables-devices` of `harness/aml/c11_test.go`) -/
+example : agrees [[.device 1 { segs := ["DEV0"] } [.name { segs := ["N000"] } (.int 1 1)], .name { segs := ["N001"] } (.int 0 1)],
+    [.name { segs := ["N002"] } (.int 4 0xdeadbeef), .device 2 { segs := ["DEV1"] } [.device 1 { segs := ["DEV0"] } []]],
+    [.name { segs := ["N003"] } (.int 0 7)]] = true :=
+  multi_table_programs_agree [[.dev 1 "DEV0" [.name "N000" 1 1], .name "N001" 0 1],
+      [.name "N002" 4 0xdeadbeef, .dev 2 "DEV1" [.dev 1 "DEV0" []]], [.name "N003" 0 7]]
+    (by
+      intro l hl
+      simp only [List.mem_cons, List.mem_nil_iff, or_false] at hl
+      rcases hl with rfl | rfl | rfl <;> exact AmlParser.F.oks_of_b _ (by decide))
+    (by decide) (by decide)
 
 /-- **The specification's namespace is a tree, for every program** (`Spec.namespace_is_tree`): whatever tables are
 loaded — well-scoped or not — `namespaceOf` never declares a path twice, and every declared path with more than one
